@@ -180,7 +180,15 @@ def move_case(value):
     ae.add_scu(sopclass.storage_scu, [svc.SC_STORAGE])
     req = {0x0002: sop, 0x0100: 0x0021, 0x0110: msg_id, 0x0600: 'DEST', 0x0700: 0}
     ident = svc.enc_ds(svc.simple_ds(PatientID='1', QueryRetrieveLevel='PATIENT'))
-    acc, fac, exc = run_primary(ae, [(pc_id, sop)], [(req, ident, pc_id)], [svc.sub_plan(store_statuses, confirm_release=confirm)])
+    dest_max = (16384, 90, 0)[(msg_id + nsub) % 3]
+    case['destination_max'] = dest_max
+    acc, fac, exc = run_primary(ae, [(pc_id, sop)], [(req, ident, pc_id)],
+                                [svc.sub_plan(store_statuses, confirm_release=confirm, max_len=dest_max)])
+    if len(fac.instances) > 1 and dest_max:
+        too = [max(m['pdu_lengths']) for m in fac.instances[1].sent_msgs() if max(m['pdu_lengths']) > dest_max]
+        if too:
+            raise Violation('%s:C-MOVE-RQ:sub-operation-too-long' % PROP, 'C-STORE sub-operation sent in P-DATA-TF PDUs of %d bytes, '
+                            'the destination announced %d' % (max(too), dest_max), case)
     if confirm or nsub == 0 or outcome_kind == 'raise':
         expect_clean(exc, case, 'C-MOVE')
     elif exc is not None and not isinstance(exc, exceptions.NetDICOMError):
@@ -247,7 +255,10 @@ def action_case(value):
     ae = svc.make_server({'on_commitment_request': on_request}, [sopclass.StorageCommitment()])
     req = {0x0003: svc.COMMITMENT, 0x0100: 0x0130, 0x0110: msg_id, 0x1001: svc.COMMITMENT_INSTANCE, 0x1008: 1}
     data = svc.enc_ds(commitment_ds(transaction, refs))
-    acc, fac, exc = run_primary(ae, [(pc_id, svc.COMMITMENT)], [(req, data, pc_id)], [svc.sub_plan()])
+    # the node the report goes to announces its own (here: much smaller) maximum PDU length on that association
+    sub_max = (64, 16384, 0, 200)[(msg_id + nok) % 4]
+    case['report_destination_max'] = sub_max
+    acc, fac, exc = run_primary(ae, [(pc_id, svc.COMMITMENT)], [(req, data, pc_id)], [svc.sub_plan(max_len=sub_max)])
     expect_clean(exc, case, 'N-ACTION')
     rsps = fac.instances[0].sent_msgs()
     if len(rsps) != 1:
@@ -274,6 +285,9 @@ def action_case(value):
     if len(reports) != 1 or reports[0]['fields'].get(0x0100) != 0x0100:
         raise Violation('%s:N-EVENT-REPORT:missing' % PROP, '%d messages on the sub-association' % len(reports), case)
     rep = reports[0]
+    if sub_max and max(rep['pdu_lengths']) > sub_max:
+        raise Violation('%s:N-EVENT-REPORT:too-long' % PROP, 'the report was sent in P-DATA-TF PDUs of up to %d bytes; the node it '
+                        'went to announced a maximum of %d on that association' % (max(rep['pdu_lengths']), sub_max), case)
     want_type = 2 if nfail else 1
     if rep['fields'].get(0x1002) != want_type:
         raise Violation('%s:N-EVENT-REPORT:event-type' % PROP, 'event type %r with %d failures'
